@@ -31,6 +31,7 @@ EXPLANATION = (
     "reshapes both operands to the full output rank; (AXES equation) the equation "
     "tensordot is translated into. "
     'Round 7: (PERM) every function of contract.py is scanned, the map(x.index, y) spelling included. '
+    "Rounds 7-8: (PLANDEP) every plan-returning exit of the planners derives from the equation's output; (DIAG) the layout bookkeeping after a diagonal, executed on sample layouts, follows numpy's advanced-indexing rule; (DEDUP) a repeated index is classified once per operand; (PRIMS) no conjugating or flattening primitive in the executor. "
 )
 ASSUMPTIONS = ("matmul contracts the last axis of its first with the second-to-last axis of its "
                "second operand and broadcasts leading axes; transpose(x, p) puts source axis p[i] at i",)
